@@ -8,7 +8,7 @@ MODULE = "Poupool.Properties.C08"
 
 def run(chk):
     ac.run_actor_property(chk, MODULE, THEOREMS, monitor_pids=["C08"], extra=globals().get("extra"))
-    ac.dispatch_facts(chk, ['C14_fact_methods', 'C14_fact_boost_duration', 'C14_fact_backwash_duration', 'C14_fact_rinse_duration'])
+    ac.dispatch_facts(chk, ['C14_fact_routing', 'C14_fact_boost_duration', 'C14_fact_backwash_duration', 'C14_fact_rinse_duration'])
     ac.responsiveness(chk, ['Filtration', 'Tank', 'Heating', 'Disinfection', 'Swim', 'Arduino'])
     from checks import altcfg as _alt
     _alt.binding(chk, None)
